@@ -60,6 +60,13 @@ def invocations_on_path(path, fields, params, tparams=()):
     for c in calls:
         if not any(c is u for u in uniq):
             uniq.append(c)
+    # a lambda bound to a local and handed to another invocation (auto call = [&](...) {...}; apply(move(call), tuple)) is
+    # part of that invocation: the calls in its body are nested, exactly as if the lambda were written in the argument
+    lambda_locals = {}
+    for ev in path:
+        if ev[0] == "decl" and ev[1].get("init") is not None and astx.strip_casts(ev[1]["init"]) is not None and \
+                astx.strip_casts(ev[1]["init"]).get("k") == "lambda":
+            lambda_locals[ev[1]["n"]] = ev[1]["init"]
     # drop invocations that are arguments of another counted invocation
     outer = []
     for c in uniq:
@@ -69,6 +76,11 @@ def invocations_on_path(path, fields, params, tparams=()):
                 continue
             if any(x is c for a in d["a"] for x in astx.walk_expr(a, into_lambdas=True)):
                 inside = True
+            for a in d["a"]:
+                for y in astx.walk_expr(a, into_lambdas=True):
+                    if y.get("k") == "ref" and y.get("n") in lambda_locals and \
+                            any(x is c for x in astx.walk_expr(lambda_locals[y["n"]], into_lambdas=True)):
+                        inside = True
         if not inside:
             outer.append(c)
     return outer
